@@ -1823,7 +1823,7 @@ class Mps(MatrixProduct):
 
     
     def add(self, other):
-        if not np.allclose(self.coeff, other.coeff):
+        if self.coeff != other.coeff:
             self.scale(self.coeff, inplace=True)
             other.scale(other.coeff, inplace=True)
             self.coeff = 1
